@@ -257,6 +257,18 @@ func (cr *checkRunner) checkRcpt(ctx context.Context, checks []module.Check, rcp
 		return res
 	})
 
+	if err != nil {
+		// The recipient is refused, the results of the other checks for
+		// it (e.g. quarantine) are dropped with it. If the client names it
+		// again, all checks have to see it again, not only the one that
+		// rejected it.
+		cr.checkedRcptsLock.Lock()
+		for _, s := range states {
+			delete(cr.checkedRcptsPerCheck[s], rcptTo)
+		}
+		cr.checkedRcptsLock.Unlock()
+	}
+
 	cr.checkedRcpts = append(cr.checkedRcpts, rcptTo)
 	return err
 }
